@@ -22,6 +22,7 @@ import (
 
 	hclog "github.com/hashicorp/go-hclog"
 	"github.com/hashicorp/go-plugin/internal/grpcmux"
+	"github.com/hashicorp/go-plugin/internal/verifhook"
 	"google.golang.org/grpc"
 )
 
@@ -251,6 +252,7 @@ func Serve(opts *ServeConfig) {
 				"Misconfigured ServeConfig given to serve this plugin: no magic cookie\n"+
 					"key or value was set. Please notify the plugin author and report\n"+
 					"this as a bug.\n")
+			verifhook.Point("serve.cookie.reject", nil, 0, 0)
 			exitCode = 1
 			return
 		}
@@ -261,9 +263,11 @@ func Serve(opts *ServeConfig) {
 				"This binary is a plugin. These are not meant to be executed directly.\n"+
 					"Please execute the program that consumes these plugins, which will\n"+
 					"load any plugins automatically\n")
+			verifhook.Point("serve.cookie.reject", nil, 1, 0)
 			exitCode = 1
 			return
 		}
+		verifhook.Point("serve.cookie.ok", nil, 0, 0)
 	}
 
 	// negotiate the version and plugins
@@ -286,6 +290,7 @@ func Serve(opts *ServeConfig) {
 		logger.Error("plugin init error", "error", err)
 		return
 	}
+	verifhook.Point("serve.listen", nil, 0, 0)
 
 	// Close the listener on return. We wrap this in a func() on purpose
 	// because the "listener" reference may change to TLS.
@@ -442,8 +447,10 @@ func Serve(opts *ServeConfig) {
 		if os.Getenv(envMultiplexGRPC) != "" {
 			protocolLine += fmt.Sprintf("|%v", grpcBrokerMultiplexingSupported)
 		}
+		verifhook.Point("serve.line.printing", nil, 0, 0)
 		fmt.Printf("%s\n", protocolLine)
 		os.Stdout.Sync()
+		verifhook.Point("serve.line.printed", nil, 0, 0)
 	} else if ch := opts.Test.ReattachConfigCh; ch != nil {
 		// Send back the reattach config that can be used. This isn't
 		// quite ready if they connect immediately but the client should
@@ -491,10 +498,12 @@ func Serve(opts *ServeConfig) {
 		}
 		os.Stdout = stdout_w
 		os.Stderr = stderr_w
+		verifhook.Point("serve.stdio.swapped", nil, 0, 0)
 	}
 
 	// Accept connections and wait for completion
 	go server.Serve(listener)
+	verifhook.Point("serve.serving", nil, 0, 0)
 
 	ctx := context.Background()
 	if opts.Test != nil && opts.Test.Context != nil {
@@ -518,6 +527,7 @@ func Serve(opts *ServeConfig) {
 		<-doneCh
 
 	case <-doneCh:
+		verifhook.Point("serve.done", nil, 0, 0)
 		// Note that given the documentation of Serve we should probably be
 		// setting exitCode = 0 and using os.Exit here. That's how it used to
 		// work before extracting this library. However, for years we've done
